@@ -1062,6 +1062,27 @@ func ManyTiny(kind, sub, n, junk int) []byte {
 		out = append(out, 0xff, 0xdb, 0, 67)
 		out = append(out, make([]byte, 65)...)
 		return append(out, make([]byte, 128)...)
+	case 8:
+		// an AVIF-branded file whose iloc box holds n items of 6 bytes (all offset, length and base
+		// offset fields zero bytes wide) that each declare 65535 extents
+		// (600 items per iloc box, so that each box fits the readers' 4 KiB look-ahead)
+		var ilocs []byte
+		for done := 0; done < n; done += 600 {
+			k := n - done
+			if k > 600 {
+				k = 600
+			}
+			items := make([]byte, 0, 6*k)
+			for i := 0; i < k; i++ {
+				items = append(items, be16(uint16(i+1))...)
+				items = append(items, be16(0)...)
+				items = append(items, be16(0xffff)...)
+			}
+			ilocs = append(ilocs, fullBox("iloc", 0, 0, []byte{0x00, 0x00}, be16(uint16(k)), items)...)
+		}
+		out := Box("ftyp", []byte("avif"), be32(0), []byte("avifmif1"))
+		out = append(out, fullBox("meta", 0, 0, ilocs)...)
+		return append(out, Box("mdat", make([]byte, 64))...)
 	case 4:
 		// a CR3 whose Canon uuid box holds n minimal CMT boxes (a TIFF header and an empty directory)
 		one := Box("CMT"+string(rune('1'+sub%4)), []byte("II*\x00\x08\x00\x00\x00\x00\x00\x00\x00\x00\x00"))
